@@ -844,3 +844,60 @@ def path_feasible(path, val, observe=None):
                 if mq:
                     return False
     return True
+
+
+class Resolver:
+    """Follow immutable single-assignment locals to the expression they were bound to (`let x = e;` with x never reassigned),
+    so that a rule reads `f(g(y))` and `let t = g(y); f(t)` alike."""
+
+    def __init__(self, root, params=()):
+        self.lets = {}
+        self.assigned = set()
+        for n in walk(root):
+            if n.get("k") == "let" and n.get("pat", {}).get("k") == "pbind" and "init" in n and "els" not in n:
+                self.lets.setdefault(n["pat"].get("id"), []).append(n)
+            elif n.get("k") in ("assign", "assignop"):
+                l = simp(n["l"])
+                if isinstance(l, dict) and l.get("k") == "local":
+                    self.assigned.add(l.get("id"))
+
+    def let_of(self, e):
+        e = simp(e)
+        if isinstance(e, dict) and e.get("k") == "local":
+            ls = self.lets.get(e.get("id"), [])
+            if len(ls) == 1 and e.get("id") not in self.assigned:
+                return ls[0]
+        return None
+
+    def res(self, e, depth=6):
+        """The expression behind `e` (refs and no-op blocks kept transparent)."""
+        e = simp(e)
+        while depth > 0:
+            l = self.let_of(e)
+            if l is None:
+                break
+            e = simp(l["init"])
+            depth -= 1
+        return e
+
+    def same(self, a, b):
+        """Do a and b denote the same value by construction (same local, or structurally equal after resolution)?"""
+        import json
+        a0, b0 = simp(a), simp(b)
+        if isinstance(a0, dict) and isinstance(b0, dict) and a0.get("k") == "local" and b0.get("k") == "local" and a0.get("id") == b0.get("id"):
+            return True
+
+        def strip(n):
+            if isinstance(n, dict):
+                return {k: strip(v) for k, v in n.items() if k not in ("ln", "ty", "mac", "inl", "norm", "col", "recv_ty", "recv_adj_ty", "method")}
+            if isinstance(n, list):
+                return [strip(x) for x in n]
+            return n
+
+        def full(n, d=4):
+            n = self.res(n)
+            if isinstance(n, dict):
+                return {k: (full(v, d - 1) if isinstance(v, dict) and d > 0 else [full(x, d - 1) if isinstance(x, dict) and d > 0 else x for x in v] if isinstance(v, list) else v)
+                        for k, v in n.items()}
+            return n
+        return json.dumps(strip(full(a)), sort_keys=True) == json.dumps(strip(full(b)), sort_keys=True)
